@@ -144,7 +144,6 @@ Section Static2.
   Definition fetch2_static_b (d : dfield2) (si : nat) (T : name) (ks : list name) : bool :=
     let selA := d2_selA d in let selB := d2_selB d in
     Nat.ltb si (length subs) &&
-    match d2_shape d with ShObj _ => true | ShList _ _ => false end &&
     match find_type Q (s_types sc) with
     | Some td =>
       match find_field (d2_name d) (td_fields td) with
@@ -160,7 +159,7 @@ Section Static2.
     flat_okb sc frags vdsM supM g0 T selA && flat_okb sc frags vdsM supM g0 T selB &&
     keys_disjoint (flat_of' T selA) (flat_of' T selB) &&
     keys_unaliased ks (flat_of' T selA) &&
-    key_declared decls T ks &&
+    key_covered decls T ks && repr_fields_ok decls rdecls T ks &&
     reqs_static_b rdecls T (flat_of' T selB) ks &&
     (negb tn || sels_top_nokey s_typename selB).
 
@@ -181,9 +180,21 @@ Section Static2.
     forallb (fun vd => not_repr (vd_name vd)) vdsM &&
     forallb field2_static_b ds.
 
+  (* (U5) the list-typed fields of the root object hold lists *)
+  Definition is_list_ty (t : ty) : bool :=
+    match t with TList _ | TNonNull (TList _) => true | _ => false end.
+  Definition root_lists_b (U : universe) : bool :=
+    match find_entity U Q [], find_type Q (s_types sc) with
+    | Some eQ, Some td =>
+      forallb (fun fd => negb (is_list_ty (fd_type fd)) ||
+                         match field_fval {| ov_ent := eQ; ov_repr := None |} (fd_name fd) with FLst _ => true | _ => false end)
+              (td_fields td)
+    | _, _ => true
+    end.
+
   (* the universe contract: subgraph schemas, declared keys, declared @requires (plan independent) *)
   Definition univ2_contract_b (U : universe) : bool :=
-    univ_contract_b sc decls rdecls subs U.
+    univ_contract_b sc decls rdecls subs U && root_lists_b U.
 
   Definition plan2_ks (ds : list dfield2) : nat :=
     fold_right (fun d acc => Nat.max (match d2_fetch d with Some (_, _, ks) => length ks | None => O end) acc) O ds.
